@@ -151,10 +151,12 @@ def run_case(case):
             viol = {"what": "renamed assumptions+guarantees differ from the substituted ones (%s)" % e["direction"],
                     "sig": {"kind": "rename-meaning", "part": "guarantees"}, "detail": dict(e, result=d, reference=ref)}
     if viol is None and case["kind"] in ("absent", "same"):
-        try:
-            same = (res == con)
-        except Exception as ex:  # noqa: B902
-            raise env.Undocumented(ex, "__eq__") from ex
+        # "changes nothing": same interface and meaning (checked above) and no constraint that the original did not have. Object
+        # equality would demand more: the rebuilt contract may legitimately lose a guarantee that is implied without margin
+        # (a tie the first simplification happened to keep).
+        dc = env.c_data(con)
+        same = set(d["i"]) == set(dc["i"]) and set(d["o"]) == set(dc["o"]) and all(t in dc["a"] for t in d["a"]) and all(t in dc["g"] for t in d["g"]) \
+            and len(d["a"]) == len(dc["a"])
         if not same:
             viol = {"what": "renaming an absent variable / a variable to itself changed the contract", "sig": {"kind": "rename-noop-changed"}, "detail": {"result": d}}
     return {"viol": viol, "nontrivial": bool(touched), "labels": labels, "outcome": "returned"}
